@@ -476,17 +476,25 @@ def run(ctx, config="all", scope=None, label=""):
             continue
         for kind, (w, cs) in sorted(per.items()):
             row = None
+            owner = b["key"]
             for r in table.get(b["key"], []):
                 if r["event"] == kind:
                     row = r
+            if row is None:
+                sc = ir.sole_caller(prog, b["key"])
+                if sc is not None:
+                    # a private helper with exactly one caller is that caller's code (extract-function refactoring)
+                    for r in table.get(sc, []):
+                        if r["event"] == kind:
+                            row, owner = r, sc
             if row is not None:
                 why = row_side_conditions(prog, b, cfgs, masks, row, sanitizer, unsafe_mut)
                 if why:
                     rep.violation("%s|%s" % (key, kind), w, "reviewed row for this function no longer applies: " + why)
-                    used_rows.add((b["key"], kind))
+                    used_rows.add((owner, kind))
                     continue
             if row is not None:
-                used_rows.add((b["key"], kind))
+                used_rows.add((owner, kind))
                 rep.table("%s|%s" % (key, kind), w, row["reason"])
                 continue
             rep.violation("%s|%s" % (key, kind), w,
